@@ -346,18 +346,14 @@ func countsWitness(fail func(string, ...any)) (bool, string) {
 	s := f.NewSession("", "", "")
 	s.MustExec(fail,
 		"CREATE TABLE t (id INT PRIMARY KEY, title VARCHAR(200), body TEXT, FULLTEXT KEY ft (title))",
-		"INSERT INTO t VALUES (1, 'cat', 'fish'), (2, 'cat', 'fish')",
+		"INSERT INTO t VALUES (1, 'cat', 'fish')",
 		"CREATE FULLTEXT INDEX ft2 ON t (body)",
-		"DELETE FROM t WHERE id = 2")
-	r := s.Exec("SELECT MATCH(title) AGAINST ('cat') FROM t")
-	if !r.OK() || len(r.Rows) != 1 {
+		"UPDATE t SET title = 'dog' WHERE id = 1")
+	r := s.Exec("SELECT id FROM t WHERE MATCH(title) AGAINST ('cat')")
+	if !r.OK() {
 		fail("witness query failed: %s", r)
 	}
-	v, err := strconv.ParseFloat(strings.TrimPrefix(fx.Norm(r.Rows[0][0], nil), "f:"), 64)
-	if err != nil {
-		fail("witness relevance is not a number: %s", r)
-	}
-	return !(v > 0), fmt.Sprintf("FULLTEXT ft(title), rows (1,'cat','fish'),(2,'cat','fish'); CREATE FULLTEXT INDEX ft2 ON t (body); DELETE FROM t WHERE id = 2; SELECT MATCH(title) AGAINST ('cat') FROM t returned relevance %v for the remaining row, which contains the word (expected > 0)", v)
+	return len(r.Rows) != 0, fmt.Sprintf("FULLTEXT ft(title), row (1,'cat','fish'); CREATE FULLTEXT INDEX ft2 ON t (body); UPDATE t SET title = 'dog' WHERE id = 1; SELECT id FROM t WHERE MATCH(title) AGAINST ('cat') returned %v, expected no row (title is 'dog')", idsOf(r))
 }
 
 type checker struct {
